@@ -18,10 +18,11 @@ class LoopNotUnrollable(Exception):
 
 
 class State(object):
-    __slots__ = ("heap", "pc", "log", "approx", "ctor_pc")
+    __slots__ = ("heap", "pc", "log", "approx", "ctor_pc", "all_ctor_pcs")
 
     def __init__(self):
         self.ctor_pc = []
+        self.all_ctor_pcs = []
         self.heap = {}     # oid -> {field: term}
         self.pc = []       # [(term, polarity, site)]
         self.log = []      # effect records (tuples, first item = kind)
@@ -34,6 +35,7 @@ class State(object):
         n.log = list(self.log)
         n.approx = list(self.approx)
         n.ctor_pc = self.ctor_pc
+        n.all_ctor_pcs = self.all_ctor_pcs
         return n
 
     def fields(self, obj):
@@ -275,6 +277,7 @@ class Ev(object):
             world._next_oid = [1]
         self.next_oid = world._next_oid      # one allocator per World: object ids never collide
         self.continues = []           # paths that reached the end of a loop body (loop_mode='once')
+        self.importing = False        # True while module top levels are evaluated (abstract import)
         self.unfold_once = set()      # quals of recursive functions to inline at their outermost call only
         self.active = []              # quals of the functions being inlined (call stack)
         self.trace_calls = None       # optional list collecting (callee FuncV, args, site)
@@ -349,6 +352,15 @@ class Ev(object):
         if m.imported:
             return
         m.imported = True
+        w = self.world
+        was = self.importing
+        self.importing = True
+        try:
+            self._import_body(m)
+        finally:
+            self.importing = was
+
+    def _import_body(self, m):
         w = self.world
         # parent packages first
         if "." in m.name:
@@ -484,7 +496,7 @@ class Ev(object):
                 return []
             if r[0] == "func":
                 return self._bind_method(r, o, o.cls, st, site)
-            return self.expr(r[1], self._class_env(r[2]), st)
+            return [(s_, self.msc_wrap(("class", r[2].qual, name), v_)) for s_, v_ in self.expr(r[1], self._class_env(r[2]), st)]
         if isinstance(o, ClassV):
             if name == "__name__":
                 return [(st, Const(o.name))]
@@ -496,7 +508,7 @@ class Ev(object):
                 return []
             if r[0] == "func":
                 return self._bind_method(r, None, o, st, site)
-            return self.expr(r[1], self._class_env(r[2]), st)
+            return [(s_, self.msc_wrap(("class", r[2].qual, name), v_)) for s_, v_ in self.expr(r[1], self._class_env(r[2]), st)]
         if isinstance(o, SuperV):
             mro = o.recv.cls.mro() if isinstance(o.recv, Obj) else o.recv.mro()
             after = mro[mro.index(o.owner) + 1:] if o.owner in mro else []
@@ -596,10 +608,18 @@ class Ev(object):
         return res
 
     def subscript(self, o, k, st, site):
-        if isinstance(o, DictV) and isinstance(k, Const):
-            if k.v in o.items:
-                return [(st, o.items[k.v])]
-            self.do_raise(st, "KeyError", site, k.v)
+        if is_app(o, "msc"):
+            init = self.msc_view(o)
+            if init is not None:
+                return self.subscript(init, k, st, site)
+            return [(st, App("index", (o, k)))]
+        if isinstance(o, DictV) and _is_closed(k):
+            kk = _py(k)
+            if isinstance(kk, list):
+                kk = tuple(kk)
+            if kk in o.items:
+                return [(st, o.items[kk])]
+            self.do_raise(st, "KeyError", site, kk)
             return []
         if isinstance(o, TupleV) and isinstance(k, Const) and isinstance(k.v, int):
             if -len(o.items) <= k.v < len(o.items):
@@ -675,8 +695,55 @@ class Ev(object):
         go(0, st)
         return outs
 
+    def msc_view(self, v):
+        """The value to compute with: while importing, the contents as written so far by the import
+        itself (a real, deterministic execution); afterwards None = unknown (any history)."""
+        if is_app(v, "msc"):
+            if not self.importing:
+                return None
+            store = self.world.__dict__.setdefault("_msc_store", {})
+            cur = store.get(v.args[0].v, v.args[1])
+            if is_app(cur, "set", "dict", "list", "defaultdict", "OrderedDict") and not cur.args:
+                cur = DictV(()) if cur.f in ("dict", "defaultdict", "OrderedDict") else TupleV((), "set" if cur.f == "set" else "list")
+            return cur
+        return v
+
+    def msc_write(self, v, op, args):
+        """Track writes to a shared container made by the import itself (closed keys only)."""
+        if not self.importing:
+            return
+        store = self.world.__dict__.setdefault("_msc_store", {})
+        cur = self.msc_view(v)
+        try:
+            if op == "[]=" and isinstance(cur, DictV):
+                d = dict(cur.items)
+                d[_py(args[0])] = args[1]
+                store[v.args[0].v] = DictV(d.items())
+            elif op == "add" and isinstance(cur, TupleV) and cur.kind == "set":
+                if not any(i == args[0] for i in cur.items):
+                    store[v.args[0].v] = TupleV(cur.items + (args[0],), "set")
+            elif op == "append" and isinstance(cur, TupleV):
+                store[v.args[0].v] = TupleV(cur.items + (args[0],), cur.kind)
+            elif op == "clear":
+                store[v.args[0].v] = DictV(()) if isinstance(cur, DictV) else TupleV((), cur.kind)
+        except (ValueError, TypeError):
+            pass
+
     def compare(self, op, a, b, st, site):
         """-> [(state, term)]"""
+        if is_app(b, "msc") and op in ("In", "NotIn"):
+            init = self.msc_view(b)
+            if init is not None:
+                if isinstance(init, DictV) and _is_closed(a):
+                    kk = _py(a)
+                    kk = tuple(kk) if isinstance(kk, list) else kk
+                    return [(st, Const((kk in init.items) == (op == "In")))]
+                if isinstance(init, TupleV):
+                    # import is one concrete execution: two different terms written by it are
+                    # taken to be different values (no accidental cache hit during import)
+                    return [(st, Const(any(i == a for i in init.items) == (op == "In")))]
+                return self.compare(op, a, init, st, site)
+            return [(st, App(op, (a, b)))]
         if op in ("Eq", "NotEq"):
             for x, y in ((a, b), (b, a)):
                 if isinstance(x, Obj):
@@ -919,6 +986,17 @@ class Ev(object):
         return out
 
     def _call_opaque_method(self, recv, name, args, kw, st, site):
+        if is_app(recv, "msc"):
+            if name in _MUTATORS:
+                st.log.append(("mutator-call", recv, name, args, site))
+                st.log.append(("shared-container-write", recv, name, site))
+                self.msc_write(recv, name, args)
+                return [Outcome("return", App("." + name, (recv,) + tuple(args)) if not self.importing else NONE, st)]
+            init = self.msc_view(recv)
+            if init is not None:
+                return self._call_opaque_method(init, name, args, kw, st, site)
+            st.log.append(("shared-container-read", recv, name, site))
+            return [Outcome("return", App("." + name, (recv,) + tuple(args), kw), st)]
         if isinstance(recv, Const) and name in _PURE_CONST_METHODS and all(_is_closed(a) for a in args) and not kw:
             try:
                 v = getattr(recv.v, name)(*[_py(a) for a in args])
@@ -926,6 +1004,8 @@ class Ev(object):
             except Exception as e:
                 self.do_raise(st, type(e).__name__, site, str(e)[:60])
                 return []
+        if isinstance(recv, DictV) and not recv.items and name == "get" and args:
+            return [Outcome("return", args[1] if len(args) > 1 else NONE, st)]
         if isinstance(recv, DictV):
             if name == "get" and args and isinstance(args[0], Const):
                 dflt = args[1] if len(args) > 1 else NONE
@@ -983,6 +1063,11 @@ class Ev(object):
             return [Outcome("return", DictV([(k, v) for k, v in kw]), st)]
         if name == "dict" and len(args) == 1 and isinstance(args[0], DictV) and not kw:
             return [Outcome("return", args[0], st)]
+        if name == "len" and len(args) == 1 and is_app(args[0], "msc"):
+            init = self.msc_view(args[0])
+            if init is not None:
+                return [Outcome("return", mk_app("len", (init,)), st)]
+            return [Outcome("return", App("len", args), st)]
         if name == "len" and len(args) == 1 and isinstance(args[0], Obj) and args[0].cls.lookup("__len__"):
             return self.call_method(args[0], "__len__", (), st, site)
         st.log.append(("ext-call", name, args, site))
@@ -1064,10 +1149,10 @@ class Ev(object):
         nd = len(a.defaults)
         for nme, d in zip(names[len(names) - nd:], a.defaults):
             if nme not in loc:
-                loc[nme] = self.expr(d, denv, st)[0][1]
+                loc[nme] = self.msc_wrap(("default", id(f.node), nme), self.expr(d, denv, st)[0][1])
         for nme, d in zip(konly, a.kw_defaults):
             if nme not in loc and d is not None:
-                loc[nme] = self.expr(d, denv, st)[0][1]
+                loc[nme] = self.msc_wrap(("default", id(f.node), nme), self.expr(d, denv, st)[0][1])
         for nme in names + konly:
             if nme not in loc:
                 self.do_raise(st, "TypeError", site, "missing argument %s for %s" % (nme, f.qual))
@@ -1302,9 +1387,20 @@ class Ev(object):
         st.log.append(("nonlocal-decl", tuple(n.names), self.site(n, env)))
         raise AnalysisError("%s:%d: nonlocal is not supported" % (env["mod"].relpath, n.lineno))
 
+    def msc_wrap(self, key, v):
+        """A container that outlives the call and is mutated somewhere: its contents depend on the
+        history of the process.  msc(key, initial): during import it behaves like its initial
+        value, afterwards its contents are unknown (any earlier session may have written it)."""
+        if key in self.world.shared_containers() and isinstance(v, (TupleV, DictV)) or \
+                (key in self.world.shared_containers() and isinstance(v, App) and v.f in ("set", "dict", "list", "defaultdict", "OrderedDict", "deque", "bytearray")):
+            return App("msc", (Const(repr(key[:1] + key[2:]) if key[0] == "default" else repr(key)), v))
+        return v
+
     def s_Assign(self, n, env, st):
         out = []
         outs = self.expr(n.value, self._cp(env) if len(n.targets) else env, st)
+        if env.get("toplevel") and len(n.targets) == 1 and isinstance(n.targets[0], ast.Name):
+            outs = [(s1, self.msc_wrap(("module", env["mod"].name, n.targets[0].id), v)) for s1, v in outs]
         for s1, v in outs:
             e2 = self._cp(env)
             ok = True
@@ -1389,6 +1485,11 @@ class Ev(object):
                 items = list(base.items)
                 items[k.v] = v
                 env["locals"][t.value.id] = TupleV(items, "list")
+                return True
+            if is_app(base, "msc"):
+                st.log.append(("sub-store", base, k, v, site, _base_name(t.value)))
+                st.log.append(("shared-container-write", base, "[]=", site))
+                self.msc_write(base, "[]=", (k, v))
                 return True
             if local and isinstance(base, (App, TupleV)) and not isinstance(t.slice, ast.Slice):
                 # functional update of a local (non-parameter) sequence/mapping value
